@@ -5,8 +5,8 @@
 (* enumerated by TLC over a probe universe.                                *)
 (*                                                                         *)
 (* `RangeIntersect`, `Degenerate` and `RangeContains` below are the same    *)
-(* text as in Candidates.tla (bin/selftest compares the two bodies token   *)
-(* by token), with the value order instantiated to the integers: Lt is <,  *)
+(* text as in Candidates.tla (bin/check C06 compares the two bodies; a       *)
+(* difference is model drift), the value order being the integers: Lt is <, *)
 (* Le is =<, ValueEq is =.  Null is not an integer; the null flag is the   *)
 (* conjunction of the two flags and needs no proof beyond propositional    *)
 (* logic (NullLaw).  A bound always carries a field v (ignored when the    *)
